@@ -500,3 +500,76 @@ reg(Contract(
     },
     modifies=["Path.pp", "Path.pp#len"] + PATH_SCALARS, allocates=True, result=("ref", "Path"),
 ))
+
+
+# ---- update_energies ---------------------------------------------------------------------
+# (C14: "energies where present").  Uses try / except IndexError inside the loop: an index beyond the end of a list FORKS there.
+def _ue_make(ex, st):
+    from pyvc.values import LstObj, SymSeq
+    a = _one_path(0)(ex, st)
+    e, v = SymSeq.fresh("ekin", ("real",)), SymSeq.fresh("vpot", ("real",))
+    st.assume(e.length >= 0, v.length >= 0)
+    a["ekin"], a["vpot"] = LstObj(e), LstObj(v)
+    return a
+
+
+def _ue_rows(ctx, upto):
+    p = ctx.old.env["self"] if "self" in ctx.old.env else ctx.a("self")
+    E, V = ctx.old.env["ekin"].get(ctx.old) if hasattr(ctx.old.env.get("ekin"), "get") else None, None
+    return p, E, V
+
+
+def _ue_clause(st, old, p, ekin, vpot, lo, hi):
+    """Frames lo..hi-1 of p: energy k is list element k when it exists, None otherwise."""
+    E, V = ekin.get(old), vpot.get(old)
+    H = st.heap
+
+    def body(j):
+        r = ppat(old, p, j)
+        return z3.And(
+            z3.Select(H["System.vpot_none"], r) == (j >= V.length), z3.Implies(j < V.length, z3.Select(H["System.vpot"], r) == z3.Select(V.comps[0], j)),
+            z3.Select(H["System.ekin_none"], r) == (j >= E.length), z3.Implies(j < E.length, z3.Select(H["System.ekin"], r) == z3.Select(E.comps[0], j)))
+    return forall_range(lo, hi, body, pattern=lambda j: ppat(old, p, j))
+
+
+def _ue_distinct(st, p):
+    """Frames of one path are distinct objects (a path never holds the same System twice: every append stores a fresh copy)."""
+    i, j = z3.Int("i!d"), z3.Int("j!d")
+    n = pplen(st, p)
+    return z3.ForAll([i, j], z3.Implies(z3.And(0 <= i, i < j, j < n), ppat(st, p, i) != ppat(st, p, j)))
+
+
+def _ue_inv(ctx):
+    p = ctx.old.env["self"]
+    ekin, vpot = ctx.old.env["ekin"], ctx.old.env["vpot"]
+    it = ctx.it
+    others = [k for k in sys_fields() if k not in ("System.vpot", "System.vpot_none", "System.ekin", "System.ekin_none")]
+    r = z3.Int("r!u")
+    untouched = z3.ForAll([r], z3.Implies(z3.Not(z3.Exists([z3.Int("k!u")], z3.And(0 <= z3.Int("k!u"), z3.Int("k!u") < it, ppat(ctx.old, p, z3.Int("k!u")) == r))),
+                                         z3.And(*[z3.Select(ctx.st.heap[k], r) == z3.Select(ctx.old.heap[k], r) for k in ("System.vpot", "System.vpot_none", "System.ekin", "System.ekin_none")])))
+    return [
+        ("frames_done_carry_their_energies", _ue_clause(ctx.st, ctx.old, p, ekin, vpot, 0, it)),
+        ("frame_list_untouched", z3.And(ctx.st.heap["Path.pp"] == ctx.old.heap["Path.pp"], ctx.st.heap["Path.pp#len"] == ctx.old.heap["Path.pp#len"])),
+        ("other_fields_untouched", z3.And(*[ctx.st.heap[k] == ctx.old.heap[k] for k in others])),
+        ("energies_of_other_systems_untouched", untouched),
+    ]
+
+
+def _ue_post(ctx):
+    p = ctx.a("self")
+    n = pplen(ctx.old, p)
+    others = [k for k in sys_fields() if k not in ("System.vpot", "System.vpot_none", "System.ekin", "System.ekin_none")]
+    return [
+        ("every_frame_gets_energy_k_of_each_list_or_None_when_the_list_is_shorter", _ue_clause(ctx.st, ctx.old, p, ctx.a("ekin"), ctx.a("vpot"), 0, n)),
+        ("nothing_but_energies_changes", z3.And(*[ctx.st.heap[k] == ctx.old.heap[k] for k in others], unchanged(ctx, ["Path.pp", "Path.pp#len"] + PATH_SCALARS))),
+        ("never_raises", z3.BoolVal(not ctx.raised)),
+    ]
+
+
+reg(Contract(
+    "Path.update_energies", src=(PATH_PY, "Path.update_energies"), cases=[Case("sym", _ue_make)],
+    requires=lambda c: [("frames_of_a_path_are_distinct_objects", _ue_distinct(c.st, c.a("self")))],
+    ensures=[("update_energies", _ue_post)],
+    canaries=[("never_sets_None", lambda c: z3.Not(z3.Select(c.st.heap["System.vpot_none"], ppat(c.old, c.a("self"), 0))))],
+    loops={"for:i,phasepoint": LoopSpec(_ue_inv, modifies=["System.vpot", "System.vpot_none", "System.ekin", "System.ekin_none"])},
+))
